@@ -19,7 +19,8 @@ RULE = (
     "against exact repeated differences, split at every non-empty subset of {1/3, 1/2, 3/4} with piece_j(s) = segment(t_j + s dt) at "
     "p+1 rational s, box() against 65 exact points per segment; `point in segment`: 8 regular float segments per degree (x monotone, "
     "no cusps/loops), segment(k/32) must be `in`, points at normal offsets +-1e-4, +-1e-2 must not; winding_number(segment, centre) "
-    "against the exactly subdivided subtended angle for a 9x9 grid of centres. non-trivial = all; distinct = (degree, polygon, query)."
+    "against the exactly subdivided subtended angle for a 9x9 grid of centres; after all these queries the SAME object is "
+    "inverted in place and evaluation / derivatives / split / point-on-curve / area are asked again against the reversed polygon. non-trivial = all; distinct = (degree, polygon, query)."
 )
 ASSUMPTIONS = ["rational Newton projections (`in` on Fraction segments of degree >= 3) are excluded: minutes per query in exact arithmetic"]
 CASE_TIMEOUT = 1500
@@ -192,6 +193,37 @@ def run_case(spec):
             cb = rg.bbox(ref)
             if (lo[0], lo[1], hi[0], hi[1]) != cb:
                 fail(name, "box", "box %s %s is not the box of the control points %s" % (lo, hi, cb))
+        # the same object after invert(): every answer must be that of the reversed polygon
+        # (queries above have been asked before, so anything memoised per object is warm)
+        st, ret = call_limited(lambda: seg.invert(), 30)
+        evals += 1
+        if st != "ok" or ret is not seg:
+            fail(name, "invert", "invert() %s" % (exc_str(ret) if st == "raise" else ("does not return the segment" if st == "ok" else st)))
+        else:
+            rref = list(reversed(ref))
+            for t in ts[: p + 3]:
+                st, val = call_limited(lambda: seg(t), 30)
+                want = rg.bez_eval(rref, t)
+                if st != "ok" or abs(rg.ex(val[0]) - want[0]) > tol or abs(rg.ex(val[1]) - want[1]) > tol:
+                    fail(name, "invert-eval", "after invert(), segment(%s) = %s, reversed Bernstein sum %s" % (t, val if st == "ok" else st, want))
+                    break
+            for k in range(1, p + 1):
+                st, d = call_limited(lambda: seg.derivate(k), 30)
+                want = exact_derivative(rref, k)
+                bad = st != "ok"
+                if not bad:
+                    for t in ts[: p + 2]:
+                        st2, v = call_limited(lambda: d(t), 30)
+                        w = rg.bez_eval(want, t)
+                        if st2 != "ok" or abs(rg.ex(v[0]) - w[0]) > tol * 10**3 or abs(rg.ex(v[1]) - w[1]) > tol * 10**3:
+                            bad = True
+                            break
+                if bad:
+                    fail(name, "invert-derivate", "after invert(), derivate(%d) is not the derivative of the reversed segment" % k)
+                    break
+            st, pieces = call_limited(lambda: seg.split((F(1, 3),)), 30)
+            if st != "ok" or len(pieces) != 2 or any(abs(rg.ex(pieces[1](F(1, 2))[i]) - rg.bez_eval(rref, F(2, 3))[i]) > tol for i in (0, 1)):
+                fail(name, "invert-split", "after invert(), split(1/3) does not retrace the reversed segment")
     # point on curve and winding for regular float segments
     for name, ctrl in regular_segments(p):
         seg = lib.PlanarCurve(ctrl)
@@ -221,6 +253,21 @@ def run_case(spec):
                     fail(name, "off-curve", "point %s at distance %g from segment(%s) is reported `in` the segment" % (o, abs(off), t))
                     break
                 hist["off-curve"] = hist.get("off-curve", 0) + 1
+        # after invert(): points of the curve are still `in` it, the area integral flips sign
+        a0 = lib.IntegratePlanar.area(seg)
+        seg.invert()
+        for k in (1, 7, 12, 19, 31):
+            q = rg.bez_eval(ref, F(k, 32))
+            qf = (float(q[0]), float(q[1]))
+            st, v = call_limited(lambda: qf in seg, 60)
+            evals += 1
+            if st != "ok" or v is not True:
+                fail(name, "invert-on-curve", "after invert(), the curve point %s is not `in` the segment" % (qf,))
+                break
+        a1 = lib.IntegratePlanar.area(seg)
+        if abs(float(a0) + float(a1)) > 1e-9 * max(1.0, abs(float(a0))):
+            fail(name, "invert-area", "x dy integral %r before and %r after invert()" % (a0, a1))
+        seg.invert()
         for i in range(9):
             for j in range(9):
                 c = (F(-1, 2) + F(3 * i, 8), F(-3, 2) + F(4 * j, 8))
